@@ -1,12 +1,15 @@
 package props
 
 import (
+	"fmt"
 	"go/ast"
 	"go/constant"
 	"go/token"
 	"go/types"
+	"sort"
 	"strings"
 
+	"golang.org/x/tools/go/cfg"
 	"golang.org/x/tools/go/packages"
 
 	"kapcheck/an"
@@ -299,6 +302,101 @@ func c06RowIndex(c *core.Ctx, root *packages.Package) {
 		}
 		return true
 	})
+	// what the loop writes: the old number minus one, or the element's position — start of the loop plus the loop index (minus
+	// one before the removal), compared as linear forms over the parameter and the loop index (seed C06-14-r5)
+	ast.Inspect(fn.Decl.Body, func(n ast.Node) bool {
+		rs, ok := n.(*ast.RangeStmt)
+		if !ok || !writesIdx(rs.Body) {
+			return true
+		}
+		sl, ok := ast.Unparen(rs.X).(*ast.SliceExpr)
+		if !ok || sl.Low == nil {
+			return true
+		}
+		var keyObj types.Object
+		if id, ok := rs.Key.(*ast.Ident); ok && rs.Key != nil {
+			keyObj = info.Defs[id]
+		}
+		var lin func(e ast.Expr) map[string]int64
+		lin = func(e ast.Expr) map[string]int64 {
+			e = ast.Unparen(e)
+			if tv, ok := info.Types[e]; ok && tv.Value != nil {
+				if v, exact := constant.Int64Val(constant.ToInt(tv.Value)); exact {
+					return map[string]int64{"1": v}
+				}
+				return nil
+			}
+			if id, ok := e.(*ast.Ident); ok {
+				switch {
+				case id.Name == idx:
+					return map[string]int64{"idx": 1}
+				case keyObj != nil && info.Uses[id] == keyObj:
+					return map[string]int64{"i": 1}
+				}
+				return nil
+			}
+			if b, ok := e.(*ast.BinaryExpr); ok && (b.Op == token.ADD || b.Op == token.SUB) {
+				l, r := lin(b.X), lin(b.Y)
+				if l == nil || r == nil {
+					return nil
+				}
+				o := map[string]int64{}
+				for k, v := range l {
+					o[k] += v
+				}
+				for k, v := range r {
+					if b.Op == token.ADD {
+						o[k] += v
+					} else {
+						o[k] -= v
+					}
+				}
+				return o
+			}
+			return nil
+		}
+		ast.Inspect(rs.Body, func(m ast.Node) bool {
+			as, ok := m.(*ast.AssignStmt)
+			if !ok || len(as.Lhs) != 1 || len(as.Rhs) != 1 {
+				return true
+			}
+			if sel, ok := ast.Unparen(as.Lhs[0]).(*ast.SelectorExpr); !ok || sel.Sel.Name != "idx" {
+				return true
+			}
+			want := lin(sl.Low)
+			if want != nil {
+				want["i"]++
+				if rs.Pos() < removal {
+					want["1"]--
+				}
+			}
+			got := lin(as.Rhs[0])
+			if as.Tok != token.ASSIGN {
+				got = nil
+			}
+			eq := got != nil && want != nil
+			if eq {
+				for k, v := range got {
+					if want[k] != v {
+						eq = false
+					}
+				}
+				for k, v := range want {
+					if got[k] != v {
+						eq = false
+					}
+				}
+			}
+			if !eq {
+				good = false
+				found = true
+				why = "the loop stores " + types.ExprString(as.Rhs[0]) + " as a group's row number, which is not its position " + types.ExprString(sl.Low) + " + the loop index: every group behind a deleted one that was not the first is renumbered from 0 and overwrites the rows of earlier groups"
+				c.Fail("C06.rowindex", "HTTPOutNode.deleteGroup#renumber-value", as.Pos(), "%s", why)
+			}
+			return true
+		})
+		return true
+	})
 	if !found {
 		c.Fail("C06.rowindex", "HTTPOutNode.deleteGroup#renumber", fn.Decl.Pos(), "deleteGroup removes a group's row without renumbering the groups behind it: they keep writing into the row of the group after them")
 		return
@@ -358,17 +456,17 @@ func c08RestoreID(c *core.Ctx, root *packages.Package) {
 // parent share the appended element unless the parent's path has no spare capacity; the paths a handle is created with must
 // therefore be exact: NewBolt is given its buckets one by one, or a spread slice that is a literal or was made without extra
 // capacity.
-func c15BucketPath(c *core.Ctx) {
-	c.Rule("C15.bucketpath", "A9 (ownership): while Bolt.Bucket appends to the parent handle's path, every path a handle is created with has no spare capacity (NewBolt gets its buckets as separate arguments, or a spread slice that is a composite literal or made with length only): otherwise two bucket handles taken from one store share the last path element, and a reader retargets a writer's transaction to another bucket")
+func c15BucketPath(c *core.Ctx, rule string) {
+	c.Rule(rule, "A9 (ownership): while Bolt.Bucket appends to the parent handle's path, every path a handle is created with has no spare capacity (NewBolt gets its buckets as separate arguments, or a spread slice that is a composite literal or made with length only): otherwise two bucket handles taken from one store share the last path element, and a reader retargets a writer's transaction to another bucket")
 	sp := c.P.Pkg("services/storage")
 	if sp == nil {
-		c.Note("C15.bucketpath: services/storage is not loaded in this run")
+		c.Note(rule + ": services/storage is not loaded in this run")
 		return
 	}
 	info := sp.TypesInfo
 	bucket := c.P.FindFunc("services/storage", "Bolt", "Bucket")
 	if bucket == nil {
-		c.Undecided("C15.bucketpath", "anchor:Bolt.Bucket", token.NoPos, "method not found")
+		c.Undecided(rule, "anchor:Bolt.Bucket", token.NoPos, "method not found")
 		return
 	}
 	appends := false
@@ -379,7 +477,7 @@ func c15BucketPath(c *core.Ctx) {
 		return true
 	})
 	if !appends {
-		c.Ok("C15.bucketpath", "Bolt.Bucket#fresh", "Bolt.Bucket does not append to the parent's path")
+		c.Ok(rule, "Bolt.Bucket#fresh", "Bolt.Bucket does not append to the parent's path")
 		return
 	}
 	n := 0
@@ -402,7 +500,7 @@ func c15BucketPath(c *core.Ctx) {
 					name = r + "." + name
 				}
 				if call.Ellipsis == token.NoPos {
-					c.Ok("C15.bucketpath", name+"#NewBolt")
+					c.Ok(rule, name+"#NewBolt")
 					return true
 				}
 				// the spread slice
@@ -441,12 +539,107 @@ func c15BucketPath(c *core.Ctx) {
 						}
 					}
 				}
-				c.Check(exact, "C15.bucketpath", name+"#NewBolt", call.Pos(), "%s creates a Bolt handle from the spread slice %s, which may have spare capacity: Bolt.Bucket appends to the parent's path, so every bucket handle taken from this store writes its bucket name into the same array element — a restoreTopic of topic B between a writer's tx.Bucket(\"A\") and its Put commits A's event state into B's bucket (atomically)", name, why)
+				c.Check(exact, rule, name+"#NewBolt", call.Pos(), "%s creates a Bolt handle from the spread slice %s, which may have spare capacity: Bolt.Bucket appends to the parent's path, so every bucket handle taken from this store writes its bucket name into the same array element — a restoreTopic of topic B between a writer's tx.Bucket(\"A\") and its Put commits A's event state into B's bucket (atomically)", name, why)
 				return true
 			})
 		}
 	}
-	c.Floor("C15.bucketpath", "NewBolt call sites", n, 2)
+	// the packages loaded for C08 hold one of the two call sites
+	minSites := 2
+	if rule != "C15.bucketpath" {
+		minSites = 1
+	}
+	c.Floor(rule, "NewBolt call sites", n, minSites)
+	// the same inside the package: what is stored in Bolt.bucket is the caller's slice itself (decided at the call sites above),
+	// nil, the append to the parent's path, or a slice made without spare capacity — never a local copy with room to grow
+	m := 0
+	for _, f := range core.AllFuncs(sp) {
+		var variadic types.Object
+		if pl := f.Decl.Type.Params; pl != nil && len(pl.List) > 0 {
+			last := pl.List[len(pl.List)-1]
+			if _, ok := last.Type.(*ast.Ellipsis); ok && len(last.Names) == 1 {
+				variadic = info.Defs[last.Names[0]]
+			}
+		}
+		name := f.Decl.Name.Name
+		if r := core.RecvName(f.Decl); r != "" {
+			name = r + "." + name
+		}
+		k := 0
+		ast.Inspect(f.Decl.Body, func(nd ast.Node) bool {
+			var val ast.Expr
+			switch x := nd.(type) {
+			case *ast.CompositeLit:
+				if !core.TypeIs(info.TypeOf(x), core.ModPath("services/storage"), "Bolt") {
+					return true
+				}
+				for _, el := range x.Elts {
+					if kv, ok := el.(*ast.KeyValueExpr); ok {
+						if id, ok := kv.Key.(*ast.Ident); ok && id.Name == "bucket" {
+							val = kv.Value
+						}
+					}
+				}
+			case *ast.AssignStmt:
+				for i, l := range x.Lhs {
+					if an.FieldSel(info, l, "Bolt", "bucket") && i < len(x.Rhs) {
+						val = x.Rhs[i]
+					}
+				}
+			}
+			if val == nil {
+				return true
+			}
+			m++
+			k++
+			construct := fmt.Sprintf("%s#bucket-store%d", name, k)
+			def := ast.Unparen(val)
+			if id, ok := def.(*ast.Ident); ok && id.Name != "nil" {
+				obj := info.Uses[id]
+				if obj != nil && obj == variadic {
+					c.Ok(rule, construct, "the caller's arguments")
+					return true
+				}
+				ast.Inspect(f.Decl.Body, func(mm ast.Node) bool {
+					if as, ok := mm.(*ast.AssignStmt); ok {
+						for i, l := range as.Lhs {
+							if lid, ok := l.(*ast.Ident); ok && (info.Defs[lid] == obj || info.Uses[lid] == obj) && i < len(as.Rhs) {
+								def = ast.Unparen(as.Rhs[i])
+							}
+						}
+					}
+					return true
+				})
+			}
+			exact, why := false, types.ExprString(def)
+			switch x := def.(type) {
+			case *ast.Ident:
+				exact = x.Name == "nil"
+			case *ast.CompositeLit:
+				exact = true
+			case *ast.CallExpr:
+				switch {
+				case core.IsBuiltin(info, x, "append") && len(x.Args) == 2 && x.Ellipsis == token.NoPos && an.FieldSel(info, x.Args[0], "Bolt", "bucket"):
+					exact = true // the parent's path plus one element: the case the whole rule is about
+				case core.IsBuiltin(info, x, "make") && len(x.Args) == 2:
+					exact = true
+				case core.IsBuiltin(info, x, "make") && len(x.Args) == 3:
+					l, lok := info.Types[x.Args[1]]
+					cp, cok := info.Types[x.Args[2]]
+					if lok && cok && l.Value != nil && cp.Value != nil && constant.Compare(l.Value, token.EQL, cp.Value) {
+						exact = true
+					} else if types.ExprString(x.Args[1]) == types.ExprString(x.Args[2]) {
+						exact = true
+					} else {
+						why += " (capacity beyond the length)"
+					}
+				}
+			}
+			c.Check(exact, rule, construct, val.Pos(), "%s stores %s as a handle's bucket path: a path with spare capacity makes every Bolt.Bucket(x) of that handle write x into the same array element — two handles taken from one store (a reader's RestoreTopic(B) between a writer's tx.Bucket(A) and its Put) then name the same bucket", name, why)
+			return true
+		})
+	}
+	c.Floor(rule, "stores into Bolt.bucket", m, 4)
 }
 
 // c14Rules4 (seeds C14-11-r4, C14-12-r4).
@@ -1961,4 +2154,1114 @@ func c13MemoStore(info *types.Info, body *ast.BlockStmt, root types.Object, pos 
 		return true
 	})
 	return ok
+}
+
+// c09SameObject (seed C08-13-r5): Topic.events (by ID) and Topic.sorted (by level) are two indexes over ONE set of *EventState
+// objects: updateEvent changes the object it finds through events and re-sorts, and everything computed from sorted (MaxLevel,
+// the min-level listing, the topic's level) sees that change only if sorted holds the very same pointer. Wherever a method of
+// Topic stores into events[k] and appends to sorted in one block, both get the same variable.
+func c09SameObject(c *core.Ctx, pkg *packages.Package, rule string) {
+	c.Rule(rule, "A9 (ownership): Topic.events and Topic.sorted index the same *EventState objects: in every block of a Topic method that stores events[k] = X and appends Y to sorted, X and Y are the same variable (a copy in one of the two leaves the level list at the restored levels for good: a recovered alert stays listed CRITICAL and the topic's level never drops)")
+	info := pkg.TypesInfo
+	n := 0
+	for _, f := range core.AllFuncs(pkg) {
+		if core.RecvName(f.Decl) != "Topic" {
+			continue
+		}
+		k := 0
+		ast.Inspect(f.Decl.Body, func(nd ast.Node) bool {
+			blk, ok := nd.(*ast.BlockStmt)
+			if !ok {
+				return true
+			}
+			var stored, appended ast.Expr
+			for _, st := range blk.List {
+				as, ok := st.(*ast.AssignStmt)
+				if !ok || len(as.Lhs) != 1 || len(as.Rhs) != 1 {
+					continue
+				}
+				if ix, ok := ast.Unparen(as.Lhs[0]).(*ast.IndexExpr); ok && an.FieldSel(info, ix.X, "Topic", "events") {
+					stored = as.Rhs[0]
+				}
+				if an.FieldSel(info, as.Lhs[0], "Topic", "sorted") {
+					if call, ok := ast.Unparen(as.Rhs[0]).(*ast.CallExpr); ok && core.IsBuiltin(info, call, "append") && len(call.Args) == 2 && call.Ellipsis == token.NoPos && an.FieldSel(info, call.Args[0], "Topic", "sorted") {
+						appended = call.Args[1]
+					}
+				}
+			}
+			if stored == nil || appended == nil {
+				return true
+			}
+			n++
+			k++
+			c.Analysed(f)
+			construct := fmt.Sprintf("Topic.%s#pair%d", f.Decl.Name.Name, k)
+			si, sok := ast.Unparen(stored).(*ast.Ident)
+			ai, aok := ast.Unparen(appended).(*ast.Ident)
+			same := sok && aok && info.Uses[si] != nil && info.Uses[si] == info.Uses[ai]
+			// the variable is not reassigned between the two statements
+			if same {
+				obj := info.Uses[si]
+				lo, hi := stored.Pos(), appended.Pos()
+				if lo > hi {
+					lo, hi = hi, lo
+				}
+				ast.Inspect(blk, func(m ast.Node) bool {
+					if as, ok := m.(*ast.AssignStmt); ok && as.Pos() > lo && as.Pos() < hi {
+						for _, l := range as.Lhs {
+							if id, ok := ast.Unparen(l).(*ast.Ident); ok && (info.Uses[id] == obj || info.Defs[id] == obj) {
+								same = false
+							}
+						}
+					}
+					return true
+				})
+			}
+			c.Check(same, rule, construct, stored.Pos(), "Topic.%s stores %s in events but appends %s to sorted: the two indexes must hold the same object — updateEvent changes the one it finds through events, the level list keeps the other at its old level (a recovered alert stays listed at CRITICAL, the topic's level never drops, after a restart the restored levels are frozen)", f.Decl.Name.Name, types.ExprString(stored), types.ExprString(appended))
+			return true
+		})
+	}
+	c.Floor(rule, "blocks that fill both events and sorted", n, 2)
+}
+
+// c16TickerWiring (seed C16-13-r5): two boolean options of the query node stand next to each other — align() (the tick schedule
+// is truncated to `every`) and alignGroup() (the GROUP BY time() offset) — and each has exactly one consumer in the runtime
+// constructors: newTimeTicker(every, align) and Query.AlignGroup().
+func c16TickerWiring(c *core.Ctx, root *packages.Package) {
+	c.Rule("C16.wiring", "A7 (argument roles): every newTimeTicker call of the runtime constructors gets (<node>.Every, <node>.AlignFlag) of one and the same pipeline node, every newCronTicker call <node>.Cron, and Query.AlignGroup() is called exactly under `if <node>.AlignGroupFlag`: align() and alignGroup() are same-typed neighbours, exchanged they compile and shift every range of a task that sets only one of them")
+	info := root.TypesInfo
+	fieldOfNode := func(e ast.Expr) (types.Object, string) {
+		sel, ok := ast.Unparen(e).(*ast.SelectorExpr)
+		if !ok {
+			return nil, ""
+		}
+		s, ok := info.Selections[sel]
+		if !ok || s.Kind() != types.FieldVal {
+			return nil, ""
+		}
+		n := core.NamedOf(s.Recv())
+		if n == nil || n.Obj().Pkg() == nil || !strings.HasSuffix(n.Obj().Pkg().Path(), "/pipeline") {
+			return nil, ""
+		}
+		if id, ok := ast.Unparen(sel.X).(*ast.Ident); ok {
+			return info.Uses[id], sel.Sel.Name
+		}
+		return nil, sel.Sel.Name
+	}
+	nTick, nCron, nGroup := 0, 0, 0
+	for _, f := range core.AllFuncs(root) {
+		name := f.Decl.Name.Name
+		// calls
+		k := 0
+		ast.Inspect(f.Decl.Body, func(nd ast.Node) bool {
+			switch x := nd.(type) {
+			case *ast.CallExpr:
+				cal := core.Callee(info, x)
+				if cal == nil || cal.Pkg() != root.Types {
+					return true
+				}
+				switch cal.Name() {
+				case "newTimeTicker":
+					if len(x.Args) != 2 {
+						return true
+					}
+					nTick++
+					k++
+					c.Analysed(f)
+					o0, f0 := fieldOfNode(x.Args[0])
+					o1, f1 := fieldOfNode(x.Args[1])
+					c.Check(f0 == "Every" && f1 == "AlignFlag" && o0 != nil && o0 == o1, "C16.wiring", fmt.Sprintf("%s#newTimeTicker%d", name, k), x.Pos(), "%s creates the periodic ticker from (%s, %s): it must get the node's Every and AlignFlag — with alignGroup()'s flag a task that asks for align() alone ticks unaligned and one that asks for alignGroup() alone gets a schedule it never asked for", name, types.ExprString(x.Args[0]), types.ExprString(x.Args[1]))
+				case "newCronTicker":
+					if len(x.Args) != 1 {
+						return true
+					}
+					nCron++
+					_, f0 := fieldOfNode(x.Args[0])
+					c.Check(f0 == "Cron", "C16.wiring", fmt.Sprintf("%s#newCronTicker", name), x.Pos(), "%s creates the cron ticker from %s, not from the node's Cron", name, types.ExprString(x.Args[0]))
+				}
+			case *ast.IfStmt:
+				// if <node>.XFlag { <q>.AlignGroup() }
+				l := an.Effective(x.Body.List)
+				if len(l) != 1 || x.Else != nil {
+					return true
+				}
+				es, ok := l[0].(*ast.ExprStmt)
+				if !ok {
+					return true
+				}
+				call, ok := es.X.(*ast.CallExpr)
+				if !ok {
+					return true
+				}
+				cal := core.Callee(info, call)
+				if cal == nil || cal.Name() != "AlignGroup" || core.RecvTypeName(cal) != "Query" {
+					return true
+				}
+				nGroup++
+				c.Analysed(f)
+				_, fl := fieldOfNode(x.Cond)
+				c.Check(fl == "AlignGroupFlag", "C16.wiring", name+"#AlignGroup", x.Pos(), "%s aligns the GROUP BY time() offset under %s: it must depend on the node's AlignGroupFlag alone", name, types.ExprString(x.Cond))
+			}
+			return true
+		})
+	}
+	// an AlignGroup call that is not under such an if
+	for _, f := range core.AllFuncs(root) {
+		ast.Inspect(f.Decl.Body, func(nd ast.Node) bool {
+			if call, ok := nd.(*ast.CallExpr); ok {
+				if cal := core.Callee(info, call); cal != nil && cal.Name() == "AlignGroup" && core.RecvTypeName(cal) == "Query" {
+					nGroup--
+				}
+			}
+			return true
+		})
+	}
+	c.Check(nGroup == 0, "C16.wiring", "AlignGroup#guarded", token.NoPos, "a Query.AlignGroup() call of the root package does not stand alone under `if <node>.AlignGroupFlag` (%d unmatched)", -nGroup)
+	c.Floor("C16.wiring", "newTimeTicker calls", nTick, 2)
+	c.Floor("C16.wiring", "newCronTicker calls", nCron, 2)
+}
+
+// c20CacheKey (seed C20-14-r5): the auth service answers "who is this" from a cache in front of the user store. Real users
+// and subscription users (named "_sub:"+token) share that cache, so the cache must be asked under exactly the name the store
+// is asked under: a lookup by the raw token returns the cached real user of that name — ~subscriber:<admin's name> then
+// authenticates as the admin without a password.
+func c20CacheKey(c *core.Ctx) {
+	c.Rule("C20.cachekey", "A3 (key agreement): in every method of the auth service that consults the user cache and the user store, the cache is read (userCache.Get) under the very variable the store is read under (users.Get): real users and subscription users share the cache, a lookup by another value (the raw subscription token) hands out another principal's cached user")
+	sp := c.P.Pkg("services/auth")
+	if sp == nil {
+		c.Undecided("C20.cachekey", "anchor:services/auth", token.NoPos, "package not loaded")
+		return
+	}
+	info := sp.TypesInfo
+	n := 0
+	for _, f := range core.AllFuncs(sp) {
+		if core.RecvName(f.Decl) != "Service" {
+			continue
+		}
+		var cacheKeys, storeKeys []ast.Expr
+		ast.Inspect(f.Decl.Body, func(nd ast.Node) bool {
+			call, ok := nd.(*ast.CallExpr)
+			if !ok || len(call.Args) != 1 {
+				return true
+			}
+			sel, ok := call.Fun.(*ast.SelectorExpr)
+			if !ok || sel.Sel.Name != "Get" {
+				return true
+			}
+			switch {
+			case an.FieldSel(info, sel.X, "Service", "userCache"):
+				cacheKeys = append(cacheKeys, call.Args[0])
+			case an.FieldSel(info, sel.X, "Service", "users"):
+				storeKeys = append(storeKeys, call.Args[0])
+			}
+			return true
+		})
+		if len(cacheKeys) == 0 || len(storeKeys) == 0 {
+			continue
+		}
+		n++
+		c.Analysed(f)
+		okAll := true
+		var sobj types.Object
+		if id, ok := ast.Unparen(storeKeys[0]).(*ast.Ident); ok {
+			sobj = info.Uses[id]
+		}
+		for _, k := range append(cacheKeys, storeKeys...) {
+			id, ok := ast.Unparen(k).(*ast.Ident)
+			if !ok || sobj == nil || info.Uses[id] != sobj {
+				okAll = false
+			}
+		}
+		// the key variable is assigned once
+		if okAll {
+			assigns := 0
+			ast.Inspect(f.Decl.Body, func(nd ast.Node) bool {
+				if as, ok := nd.(*ast.AssignStmt); ok {
+					for _, l := range as.Lhs {
+						if id, ok := ast.Unparen(l).(*ast.Ident); ok && (info.Defs[id] == sobj || info.Uses[id] == sobj) {
+							assigns++
+						}
+					}
+				}
+				return true
+			})
+			if assigns > 1 {
+				okAll = false
+			}
+		}
+		c.Check(okAll, "C20.cachekey", "Service."+f.Decl.Name.Name, f.Decl.Pos(), "Service.%s reads the user cache under %s and the user store under %s: both must be read under one and the same variable, assigned once — otherwise the cache answers for another principal (a subscription token equal to a cached user's name authenticates as that user)", f.Decl.Name.Name, types.ExprString(cacheKeys[0]), types.ExprString(storeKeys[0]))
+	}
+	c.Floor("C20.cachekey", "methods that read both the user cache and the user store", n, 2)
+}
+
+// c17Handoff (seed C17-13-r5): the scheduler's main loop gives an occurrence to the task's worker with a non-blocking send
+// (select { case ch <- it: … default: }); success must mean "the worker has it and runs it now". Only then does a busy worker
+// leave the occurrence in the tree, where Release and a re-Schedule find and remove it. With a buffered channel the send
+// succeeds while the worker is still busy: the occurrence is parked outside the tree and runs after Release has returned.
+func c17Handoff(c *core.Ctx, sp *packages.Package) {
+	c.Rule("C17.handoff", "A9 (ownership): every channel stored in TreeScheduler.workchans is made without capacity: the main loop's non-blocking send is a rendezvous, so an occurrence a busy worker cannot take stays in the tree where Release and Schedule remove it — one buffered slot parks the next occurrence outside the tree and it runs after the task was released")
+	info := sp.TypesInfo
+	n := 0
+	for _, f := range core.AllFuncs(sp) {
+		ast.Inspect(f.Decl.Body, func(nd ast.Node) bool {
+			as, ok := nd.(*ast.AssignStmt)
+			if !ok || len(as.Lhs) != 1 || len(as.Rhs) != 1 {
+				return true
+			}
+			ix, ok := ast.Unparen(as.Lhs[0]).(*ast.IndexExpr)
+			if !ok || !an.FieldSel(info, ix.X, "TreeScheduler", "workchans") {
+				return true
+			}
+			n++
+			c.Analysed(f)
+			call, ok := ast.Unparen(as.Rhs[0]).(*ast.CallExpr)
+			unbuffered := false
+			if ok && core.IsBuiltin(info, call, "make") {
+				switch len(call.Args) {
+				case 1:
+					unbuffered = true
+				case 2:
+					if tv, ok := info.Types[call.Args[1]]; ok && tv.Value != nil && constant.Sign(tv.Value) == 0 {
+						unbuffered = true
+					}
+				}
+			}
+			c.Check(unbuffered, "C17.handoff", f.Decl.Name.Name+"#workchan", as.Pos(), "%s stores %s as a worker channel: it must be unbuffered — the main loop's non-blocking send then succeeds only when the worker takes the occurrence; with a buffer the next occurrence of a task whose worker is busy is parked outside the tree, Release cannot remove it and the executor runs a released task", f.Decl.Name.Name, types.ExprString(as.Rhs[0]))
+			return true
+		})
+	}
+	c.Floor("C17.handoff", "stores into TreeScheduler.workchans", n, 1)
+}
+
+// c15PrefixDelim (seed C15-14-r5): the keys of one index are found by a prefix scan. The prefix must end in the directory
+// delimiter, put there AFTER any path cleaning (path.Join drops a trailing slash): otherwise the scan of index "id" also returns
+// the entries of "id_by_owner" and every object is listed twice.
+// c15ReverseFirst (seed C15-15-r5): a reverse listing is the reversed index, then paginated; reversing the selected page instead
+// returns the forward page backwards.
+func c15Rules5(c *core.Ctx, sp *packages.Package) {
+	info := sp.TypesInfo
+	c.Rule("C15.prefixdelim", "A3: IndexedStore.indexPrefix returns <something> + \"/\" on every path — the delimiter is appended outside any path.Join/Clean, which would drop it: a prefix without the trailing delimiter makes the scan of one index return the entries of every index whose name it is a prefix of (objects listed twice, pages shifted, unique keys colliding)")
+	if fn := c.Need("C15.prefixdelim", "services/storage", "IndexedStore", "indexPrefix"); fn != nil {
+		n, bad := 0, token.NoPos
+		ast.Inspect(fn.Decl.Body, func(nd ast.Node) bool {
+			ret, ok := nd.(*ast.ReturnStmt)
+			if !ok || len(ret.Results) != 1 {
+				return true
+			}
+			n++
+			be, ok := ast.Unparen(ret.Results[0]).(*ast.BinaryExpr)
+			good := false
+			if ok && be.Op == token.ADD {
+				if tv, ok := info.Types[be.Y]; ok && tv.Value != nil && tv.Value.Kind() == constant.String && constant.StringVal(tv.Value) == "/" {
+					good = true
+				}
+			}
+			if !good {
+				bad = ret.Pos()
+			}
+			return true
+		})
+		c.Check(n > 0 && bad == token.NoPos, "C15.prefixdelim", "IndexedStore.indexPrefix", bad, "indexPrefix does not end its result with + \"/\" outside every other call: path.Join cleans a trailing slash away, the prefix of index \"id\" is then also a prefix of the keys of \"id_by_owner\" — a listing by id returns those entries too")
+	}
+	c.Rule("C15.reversefirst", "A2: IndexedStore.list reverses the full list of index entries before DoListFunc selects the page (offset and limit count from the end of the index), and never touches the order of the selected page afterwards")
+	if fn := c.Need("C15.reversefirst", "services/storage", "IndexedStore", "list"); fn != nil {
+		rev := an.ParamName(fn.Decl.Type, 5)
+		var dl *ast.CallExpr
+		ast.Inspect(fn.Decl.Body, func(nd ast.Node) bool {
+			if call, ok := nd.(*ast.CallExpr); ok {
+				if cal := core.Callee(info, call); cal != nil && cal.Name() == "DoListFunc" && dl == nil {
+					dl = call
+				}
+			}
+			return true
+		})
+		if dl == nil || rev == "" || len(dl.Args) < 1 {
+			c.Undecided("C15.reversefirst", "IndexedStore.list", fn.Decl.Pos(), "DoListFunc call or the reverse parameter not found")
+			return
+		}
+		listed, _ := ast.Unparen(dl.Args[0]).(*ast.Ident)
+		// the statement under `if reverse` that swaps elements of the listed slice
+		before, after := false, false
+		var pageObj types.Object
+		ast.Inspect(fn.Decl.Body, func(nd ast.Node) bool {
+			if as, ok := nd.(*ast.AssignStmt); ok && len(as.Rhs) == 1 && ast.Unparen(as.Rhs[0]) == ast.Expr(dl) && len(as.Lhs) == 1 {
+				if id, ok := as.Lhs[0].(*ast.Ident); ok {
+					pageObj = info.Defs[id]
+					if pageObj == nil {
+						pageObj = info.Uses[id]
+					}
+				}
+			}
+			return true
+		})
+		ast.Inspect(fn.Decl.Body, func(nd ast.Node) bool {
+			is, ok := nd.(*ast.IfStmt)
+			if !ok {
+				return true
+			}
+			if id, ok := ast.Unparen(is.Cond).(*ast.Ident); !ok || id.Name != rev {
+				return true
+			}
+			ast.Inspect(is.Body, func(m ast.Node) bool {
+				as, ok := m.(*ast.AssignStmt)
+				if !ok || len(as.Lhs) != 2 {
+					return true
+				}
+				ix, ok := ast.Unparen(as.Lhs[0]).(*ast.IndexExpr)
+				if !ok {
+					return true
+				}
+				id, ok := ast.Unparen(ix.X).(*ast.Ident)
+				if !ok {
+					return true
+				}
+				switch {
+				case listed != nil && info.Uses[id] == info.Uses[listed] && is.Pos() < dl.Pos():
+					before = true
+				case pageObj != nil && info.Uses[id] == pageObj, is.Pos() > dl.Pos():
+					after = true
+				}
+				return true
+			})
+			return true
+		})
+		c.Check(before && !after, "C15.reversefirst", "IndexedStore.list", dl.Pos(), "a reverse listing must reverse the whole index before DoListFunc takes the page (reversed before: %v, something swapped after: %v): reversing the selected page returns the first entries of the index backwards instead of its last ones — ReverseList(date, 0, 2) over r1…r5 gives [r2 r1] instead of [r5 r4]", before, after)
+	}
+}
+
+// ruleDerivedGroupID (seed C18-14-r5): a message keeps the ID of its group next to the three things the ID is computed from
+// (name, tags, dimensions). Every method of a message type that stores one of the three leaves, on every path to its exit, a
+// groupID recomputed from all three after the last such store — directly (ToGroupID(recv.name, recv.tags, recv.dimensions)) or
+// through a method of the same receiver that does. A shortcut that stores the dimensions alone gives a message whose
+// Dimensions() say "by measurement" while its GroupID() does not: replayed batches of cpu and mem fall into one group.
+func ruleDerivedGroupID(c *core.Ctx, ep *packages.Package, rule string) {
+	c.Rule(rule, "A2 (must-pass over go/cfg): in every method of an edge message type that has a groupID field, each store to name, tags or dimensions (or a part of them) is followed on every path to the method's exit by groupID = ToGroupID(recv.name, recv.tags, recv.dimensions) or a call of a method of the same receiver that ends so: the cached group ID never lags behind what it is computed from")
+	info := ep.TypesInfo
+	// types with a groupID field
+	hasGID := map[string]bool{}
+	for _, nm := range ep.Types.Scope().Names() {
+		if tn, ok := ep.Types.Scope().Lookup(nm).(*types.TypeName); ok {
+			if st, ok := tn.Type().Underlying().(*types.Struct); ok {
+				for i := 0; i < st.NumFields(); i++ {
+					if st.Field(i).Name() == "groupID" {
+						hasGID[nm] = true
+					}
+				}
+			}
+		}
+	}
+	type mkey struct{ recv, name string }
+	methods := map[mkey]*core.Func{}
+	for _, f := range core.AllFuncs(ep) {
+		if r := core.RecvName(f.Decl); hasGID[r] {
+			methods[mkey{r, f.Decl.Name.Name}] = f
+		}
+	}
+	// analysis of one method: returns (touches, cleanAtExit)
+	type res struct{ touches, clean bool }
+	memo := map[mkey]*res{}
+	var analyse func(k mkey, depth int) res
+	analyse = func(k mkey, depth int) res {
+		if r, ok := memo[k]; ok {
+			return *r
+		}
+		f := methods[k]
+		out := res{false, true}
+		memo[k] = &out // recursion guard: assume clean
+		if f == nil || f.Decl.Recv == nil || len(f.Decl.Recv.List[0].Names) == 0 || depth > 4 {
+			return out
+		}
+		recv := info.Defs[f.Decl.Recv.List[0].Names[0]]
+		isRecvField := func(e ast.Expr, names ...string) bool {
+			// recv.f or recv.f.g…
+			for {
+				e = ast.Unparen(e)
+				sel, ok := e.(*ast.SelectorExpr)
+				if !ok {
+					if ix, ok := e.(*ast.IndexExpr); ok {
+						e = ix.X
+						continue
+					}
+					return false
+				}
+				if id, ok := ast.Unparen(sel.X).(*ast.Ident); ok && info.Uses[id] == recv {
+					for _, n := range names {
+						if sel.Sel.Name == n {
+							return true
+						}
+					}
+					return false
+				}
+				e = sel.X
+			}
+		}
+		recompute := func(e ast.Expr) bool {
+			call, ok := ast.Unparen(e).(*ast.CallExpr)
+			if !ok || len(call.Args) != 3 {
+				return false
+			}
+			cal := core.Callee(info, call)
+			if cal == nil || cal.Name() != "ToGroupID" {
+				return false
+			}
+			return isRecvField(call.Args[0], "name") && isRecvField(call.Args[1], "tags") && isRecvField(call.Args[2], "dimensions")
+		}
+		g := cfg.New(f.Decl.Body, func(*ast.CallExpr) bool { return true })
+		// effect of a node on the state: +1 dirty, -1 clean, 0 none (in source order inside the node)
+		effects := func(n ast.Node) []int {
+			var ev []struct {
+				pos token.Pos
+				e   int
+			}
+			ast.Inspect(n, func(m ast.Node) bool {
+				switch x := m.(type) {
+				case *ast.FuncLit:
+					return false
+				case *ast.AssignStmt:
+					for i, l := range x.Lhs {
+						if isRecvField(l, "name", "tags", "dimensions") {
+							ev = append(ev, struct {
+								pos token.Pos
+								e   int
+							}{x.End(), +1})
+						}
+						if isRecvField(l, "groupID") && i < len(x.Rhs) && recompute(x.Rhs[i]) {
+							ev = append(ev, struct {
+								pos token.Pos
+								e   int
+							}{x.End(), -1})
+						}
+					}
+				case *ast.CallExpr:
+					if sel, ok := x.Fun.(*ast.SelectorExpr); ok {
+						if id, ok := ast.Unparen(sel.X).(*ast.Ident); ok && info.Uses[id] == recv {
+							if mk := (mkey{k.recv, sel.Sel.Name}); methods[mk] != nil && mk != k {
+								r := analyse(mk, depth+1)
+								if r.touches {
+									e := +1
+									if r.clean {
+										e = -1
+									}
+									ev = append(ev, struct {
+										pos token.Pos
+										e   int
+									}{x.End(), e})
+								}
+							}
+						}
+					}
+				}
+				return true
+			})
+			sort.Slice(ev, func(i, j int) bool { return ev[i].pos < ev[j].pos })
+			var o []int
+			for _, e := range ev {
+				o = append(o, e.e)
+			}
+			return o
+		}
+		dirtyIn := make([]bool, len(g.Blocks))
+		reached := make([]bool, len(g.Blocks))
+		if len(g.Blocks) == 0 {
+			return out
+		}
+		reached[0] = true
+		work := []*cfg.Block{g.Blocks[0]}
+		exitDirty := false
+		for steps := 0; len(work) > 0 && steps < 10000; steps++ {
+			b := work[0]
+			work = work[1:]
+			d := dirtyIn[b.Index]
+			for _, n := range b.Nodes {
+				for _, e := range effects(n) {
+					out.touches = true
+					d = e > 0
+				}
+			}
+			if len(b.Succs) == 0 && d {
+				exitDirty = true
+			}
+			for _, s := range b.Succs {
+				nd := dirtyIn[s.Index] || d
+				if !reached[s.Index] || nd != dirtyIn[s.Index] {
+					reached[s.Index] = true
+					dirtyIn[s.Index] = nd
+					work = append(work, s)
+				}
+			}
+		}
+		out.clean = !exitDirty
+		return out
+	}
+	n := 0
+	var keys []mkey
+	for k := range methods {
+		keys = append(keys, k)
+	}
+	sort.Slice(keys, func(i, j int) bool {
+		if keys[i].recv != keys[j].recv {
+			return keys[i].recv < keys[j].recv
+		}
+		return keys[i].name < keys[j].name
+	})
+	for _, k := range keys {
+		r := analyse(k, 0)
+		if !r.touches {
+			continue
+		}
+		n++
+		c.Analysed(methods[k])
+		c.Check(r.clean, rule, k.recv+"."+k.name, methods[k].Decl.Pos(), "%s.%s stores the name, the tags or the dimensions of the message and reaches its exit on some path without recomputing groupID from all three afterwards: GroupID() and GroupInfo().ID then describe the old value — e.g. a replayed batch with ByName dimensions keeps the ID computed without the measurement, and batches of different measurements with equal tags share one group downstream", k.recv, k.name)
+	}
+	c.Floor(rule, "message methods that store name, tags or dimensions", n, 6)
+}
+
+// c02BodyIntact (seed C02-15-r5): the points of a write are the request body, read once by the write handler. Everything the
+// HTTP service runs before it (authentication, logging, routing) must leave the body alone: http.Request.FormValue and its
+// siblings parse — and consume — the body of a POST with a form content type (curl's default for -d), the write handler then
+// reads nothing, parses zero points and acknowledges the write with 204.
+func c02BodyIntact(c *core.Ctx) {
+	c.Rule("C02.bodyintact", "A6 (who may call): no function of services/httpd calls http.Request.FormValue, PostFormValue, ParseForm, ParseMultipartForm, FormFile or MultipartReader — they consume the body of a form-typed POST before the write handler reads the points from it (query parameters are read with URL.Query()); the request body is read only by the write handlers")
+	sp := c.P.Pkg("services/httpd")
+	if sp == nil {
+		c.Undecided("C02.bodyintact", "anchor:services/httpd", token.NoPos, "package not loaded")
+		return
+	}
+	info := sp.TypesInfo
+	forbidden := map[string]bool{"FormValue": true, "PostFormValue": true, "ParseForm": true, "ParseMultipartForm": true, "FormFile": true, "MultipartReader": true}
+	nFuncs, nQuery := 0, 0
+	for _, f := range core.AllFuncs(sp) {
+		nFuncs++
+		name := f.Decl.Name.Name
+		if r := core.RecvName(f.Decl); r != "" {
+			name = r + "." + name
+		}
+		bad := token.NoPos
+		what := ""
+		ast.Inspect(f.Decl.Body, func(nd ast.Node) bool {
+			call, ok := nd.(*ast.CallExpr)
+			if !ok {
+				return true
+			}
+			cal := core.Callee(info, call)
+			if cal == nil || cal.Pkg() == nil {
+				return true
+			}
+			if cal.Pkg().Path() == "net/http" && core.RecvTypeName(cal) == "Request" && forbidden[cal.Name()] {
+				bad, what = call.Pos(), cal.Name()
+			}
+			if cal.Pkg().Path() == "net/url" && cal.Name() == "Query" {
+				nQuery++
+			}
+			return true
+		})
+		if bad != token.NoPos {
+			c.Analysed(f)
+			c.Fail("C02.bodyintact", name, bad, "%s calls Request.%s, which parses and consumes the body of a POST with a form content type: a write sent with curl -d and credentials in the URL is authenticated, then read as empty — answered 204 with none of its points delivered to any task", name, what)
+		}
+	}
+	c.Ok("C02.bodyintact", "services/httpd", fmt.Sprintf("%d functions", nFuncs))
+	c.Floor("C02.bodyintact", "functions of services/httpd", nFuncs, 40)
+	c.Floor("C02.bodyintact", "URL.Query() calls (the idiom the rule protects)", nQuery, 3)
+}
+
+// c05SizeHint (seed C05-13-r5): a batch's size hint is a capacity: BatchBuffer.BeginBatch and groupBy do
+// make([]BatchPointMessage, 0, SizeHint()). A negative hint is a run-time panic (makeslice: cap out of range) in the consumer —
+// in the reader goroutines of join and union outside every recover, so the daemon ends. By induction over the pipeline the
+// hint is non-negative if every value given to SetSizeHint and to NewBeginBatchMessage's sizeHint is: a constant >= 0, a len or
+// cap, another message's SizeHint(), a sum of such, or X - c under a test that establishes X >= c on every path.
+func c05SizeHint(c *core.Ctx) {
+	c.Rule("C05.sizehint", "A4 (guard provenance, inductive invariant SizeHint() >= 0): every argument of SetSizeHint and every sizeHint argument of NewBeginBatchMessage is provably non-negative — a constant, len/cap, another SizeHint(), a sum of those, or X − c behind a test that gives X >= c on every path (conditions taken apart at !, && and ||): the consumers allocate make(…, 0, SizeHint()), a negative hint panics in them, for join/union in a goroutine no recover covers")
+	n := 0
+	for _, pkg := range c.P.ModPkgs {
+		info := pkg.TypesInfo
+		for _, f := range core.AllFuncs(pkg) {
+			name := f.Decl.Name.Name
+			if r := core.RecvName(f.Decl); r != "" {
+				name = r + "." + name
+			}
+			k := 0
+			ast.Inspect(f.Decl.Body, func(nd ast.Node) bool {
+				call, ok := nd.(*ast.CallExpr)
+				if !ok {
+					return true
+				}
+				var arg ast.Expr
+				if sel, ok := call.Fun.(*ast.SelectorExpr); ok && sel.Sel.Name == "SetSizeHint" && len(call.Args) == 1 {
+					arg = call.Args[0]
+				} else if cal := core.Callee(info, call); cal != nil && cal.Name() == "NewBeginBatchMessage" && len(call.Args) == 5 {
+					arg = call.Args[4]
+				}
+				if arg == nil {
+					return true
+				}
+				n++
+				k++
+				c.Analysed(f)
+				body, _ := enclosingBody(f.Decl, call)
+				if body == nil {
+					body = f.Decl.Body
+				}
+				var nonNeg func(e ast.Expr, depth int) bool
+				nonNeg = func(e ast.Expr, depth int) bool {
+					e = ast.Unparen(e)
+					if depth > 4 {
+						return false
+					}
+					if tv, ok := info.Types[e]; ok && tv.Value != nil {
+						return constant.Sign(tv.Value) >= 0
+					}
+					switch x := e.(type) {
+					case *ast.CallExpr:
+						if core.IsBuiltin(info, x, "len") || core.IsBuiltin(info, x, "cap") {
+							return true
+						}
+						if sel, ok := x.Fun.(*ast.SelectorExpr); ok && sel.Sel.Name == "SizeHint" && len(x.Args) == 0 {
+							return true
+						}
+						// int(<non-negative>)
+						if tv, ok := info.Types[x.Fun]; ok && tv.IsType() && len(x.Args) == 1 {
+							if b, ok := info.TypeOf(x.Args[0]).Underlying().(*types.Basic); ok && b.Info()&types.IsUnsigned != 0 {
+								return false // may wrap
+							}
+							return nonNeg(x.Args[0], depth+1)
+						}
+					case *ast.Ident:
+						obj := info.Uses[x]
+						if obj == nil {
+							return false
+						}
+						// every definition of the local is non-negative, or a test establishes it
+						text := x.Name
+						if guardedBy(body, call, text, func(cond ast.Expr, branch bool) bool { return impliesBound(info, cond, branch, text, 0, false) }) {
+							return true
+						}
+						defs, okAll := 0, true
+						ast.Inspect(f.Decl.Body, func(m ast.Node) bool {
+							if as, ok := m.(*ast.AssignStmt); ok && len(as.Lhs) == len(as.Rhs) {
+								for i, l := range as.Lhs {
+									if id, ok := ast.Unparen(l).(*ast.Ident); ok && (info.Defs[id] == obj || info.Uses[id] == obj) {
+										defs++
+										if as.Tok != token.DEFINE && as.Tok != token.ASSIGN || !nonNeg(as.Rhs[i], depth+1) {
+											okAll = false
+										}
+									}
+								}
+							}
+							if inc, ok := m.(*ast.IncDecStmt); ok && inc.Tok == token.DEC {
+								if id, ok := ast.Unparen(inc.X).(*ast.Ident); ok && info.Uses[id] == obj {
+									okAll = false
+								}
+							}
+							return true
+						})
+						return defs > 0 && okAll
+					case *ast.BinaryExpr:
+						switch x.Op {
+						case token.ADD, token.MUL:
+							return nonNeg(x.X, depth+1) && nonNeg(x.Y, depth+1)
+						case token.SUB:
+							tv, ok := info.Types[x.Y]
+							if !ok || tv.Value == nil {
+								return false
+							}
+							cv, exact := constant.Int64Val(constant.ToInt(tv.Value))
+							if !exact {
+								return false
+							}
+							if cv <= 0 {
+								return nonNeg(x.X, depth+1)
+							}
+							text := types.ExprString(ast.Unparen(x.X))
+							return guardedBy(body, call, text, func(cond ast.Expr, branch bool) bool { return impliesBound(info, cond, branch, text, cv, false) })
+						}
+					}
+					return false
+				}
+				c.Check(nonNeg(arg, 0), "C05.sizehint", fmt.Sprintf("%s#hint%d", name, k), call.Pos(), "%s sets a batch's size hint to %s, which nothing on the way proves non-negative: the next node that buffers the batch does make(…, 0, SizeHint()) and panics (makeslice: cap out of range) — behind where/eval/flatten the hint is 0, so a valid batch kills the task, and in front of a join or union the panic is in a reader goroutine outside every recover and ends the daemon", name, types.ExprString(arg))
+				return true
+			})
+		}
+	}
+	c.Floor("C05.sizehint", "size hints set", n, 12)
+}
+
+// c05WalkProgress (seed C05-15-r5): a loop that walks down a tree by switching on the type (or value) of its cursor ends only
+// if every arm of the switch moves the cursor, leaves the loop or returns — including the arm for "anything else": a switch
+// without a default, or with a default that does nothing, spins for good on the first node kind nobody thought of
+// (`stream()|from()`: the chain starts with a call, not an identifier; the request handler's goroutine runs at 100% for ever).
+// c05RespNonBlock (seed C05-14-r5): the UDF server's single reader goroutine hands the answers to requests (info, init,
+// snapshot, restore) to one-slot channels that are read only while a request is pending. That send must not block: a UDF that
+// answers twice, or unasked, would stop the reader — no data, no keepalive, and Stop() waits for the reader for ever.
+func c05Rules5(c *core.Ctx) {
+	c.Rule("C05.walkprogress", "A2: in every loop whose body is one switch on the loop's cursor variable, every arm — and the default, which must exist — assigns the cursor, leaves the loop (return, labelled break, or break when the loop is not the innermost breakable statement) or ends in continue after assigning: no arm leaves the cursor where it was")
+	n := 0
+	for _, pkg := range c.P.ModPkgs {
+		info := pkg.TypesInfo
+		for _, f := range core.AllFuncs(pkg) {
+			name := f.Decl.Name.Name
+			if r := core.RecvName(f.Decl); r != "" {
+				name = r + "." + name
+			}
+			// labels of for statements
+			labels := map[*ast.ForStmt]string{}
+			ast.Inspect(f.Decl.Body, func(nd ast.Node) bool {
+				if ls, ok := nd.(*ast.LabeledStmt); ok {
+					if fs, ok := ls.Stmt.(*ast.ForStmt); ok {
+						labels[fs] = ls.Label.Name
+					}
+				}
+				return true
+			})
+			k := 0
+			ast.Inspect(f.Decl.Body, func(nd ast.Node) bool {
+				fs, ok := nd.(*ast.ForStmt)
+				if !ok || fs.Post != nil || fs.Init != nil {
+					return true
+				}
+				body := an.Effective(fs.Body.List)
+				if len(body) != 1 {
+					return true
+				}
+				var cursor types.Object
+				var clauses []*ast.CaseClause
+				switch sw := body[0].(type) {
+				case *ast.TypeSwitchStmt:
+					if sw.Init != nil {
+						return true
+					}
+					var x ast.Expr
+					switch a := sw.Assign.(type) {
+					case *ast.AssignStmt:
+						if ta, ok := ast.Unparen(a.Rhs[0]).(*ast.TypeAssertExpr); ok {
+							x = ta.X
+						}
+					case *ast.ExprStmt:
+						if ta, ok := ast.Unparen(a.X).(*ast.TypeAssertExpr); ok {
+							x = ta.X
+						}
+					}
+					if id, ok := ast.Unparen(x).(*ast.Ident); ok {
+						cursor = info.Uses[id]
+					}
+					for _, s := range sw.Body.List {
+						clauses = append(clauses, s.(*ast.CaseClause))
+					}
+				case *ast.SwitchStmt:
+					if sw.Init != nil {
+						return true // the value switched on is produced anew in every round (switch r := l.next(); r)
+					}
+					if id, ok := ast.Unparen(sw.Tag).(*ast.Ident); ok && sw.Tag != nil {
+						cursor = info.Uses[id]
+					}
+					for _, s := range sw.Body.List {
+						clauses = append(clauses, s.(*ast.CaseClause))
+					}
+				default:
+					return true
+				}
+				if cursor == nil {
+					return true
+				}
+				// the loop's own condition, if any, is about the cursor too (or there is none)
+				if fs.Cond != nil {
+					mentions := false
+					ast.Inspect(fs.Cond, func(m ast.Node) bool {
+						if id, ok := m.(*ast.Ident); ok && info.Uses[id] == cursor {
+							mentions = true
+						}
+						return true
+					})
+					if !mentions {
+						return true
+					}
+				}
+				n++
+				k++
+				c.Analysed(f)
+				construct := fmt.Sprintf("%s#walk%d", name, k)
+				hasDefault := false
+				bad := ""
+				for _, cl := range clauses {
+					if cl.List == nil {
+						hasDefault = true
+					}
+					progress := false
+					ast.Inspect(cl, func(m ast.Node) bool {
+						switch x := m.(type) {
+						case *ast.FuncLit:
+							return false
+						case *ast.ReturnStmt:
+							progress = true
+						case *ast.BranchStmt:
+							if x.Tok == token.BREAK && x.Label != nil && x.Label.Name == labels[fs] {
+								progress = true
+							}
+							if x.Tok == token.GOTO {
+								progress = true
+							}
+						case *ast.AssignStmt:
+							for _, l := range x.Lhs {
+								if id, ok := ast.Unparen(l).(*ast.Ident); ok && info.Uses[id] == cursor {
+									progress = true
+								}
+							}
+						case *ast.CallExpr:
+							if core.IsBuiltin(info, x, "panic") {
+								progress = true
+							}
+						}
+						return true
+					})
+					if !progress {
+						what := "default"
+						if cl.List != nil {
+							what = "case " + types.ExprString(cl.List[0])
+						}
+						bad = "the arm `" + what + "` neither moves the cursor nor leaves the loop"
+					}
+				}
+				if !hasDefault && bad == "" {
+					bad = "the switch has no default: a cursor of any other kind is looked at again and again"
+				}
+				c.Check(bad == "", "C05.walkprogress", construct, fs.Pos(), "%s walks with a loop around a switch on its cursor %s, and %s: the loop never ends on such a value — for taskTypeFromProgram a script whose first chain starts with a call (`stream()|from()`) keeps the request handler's goroutine spinning for good, and every such request adds one", name, cursor.Name(), bad)
+				return true
+			})
+		}
+	}
+	c.Floor("C05.walkprogress", "cursor loops around a switch", n, 2)
+
+	c.Rule("C05.udf.respnonblock", "A2: udf.Server.doResponse hands an answer to its one-slot channel in a select that has a default arm: the single reader goroutine never blocks on a channel that is read only while a request is pending (a UDF that answers twice or unasked would stop the reader, the keepalive and every later Stop)")
+	if fn := c.Need("C05.udf.respnonblock", "udf", "Server", "doResponse"); fn != nil {
+		sends, guarded := 0, 0
+		ast.Inspect(fn.Decl.Body, func(nd ast.Node) bool {
+			switch x := nd.(type) {
+			case *ast.SelectStmt:
+				hasSend, hasDefault := false, false
+				for _, cc := range x.Body.List {
+					cl := cc.(*ast.CommClause)
+					if cl.Comm == nil {
+						hasDefault = true
+					} else if _, ok := cl.Comm.(*ast.SendStmt); ok {
+						hasSend = true
+					}
+				}
+				if hasSend {
+					sends++
+					if hasDefault {
+						guarded++
+					}
+				}
+				return false
+			case *ast.SendStmt:
+				sends++
+			}
+			return true
+		})
+		c.Check(sends > 0 && sends == guarded, "C05.udf.respnonblock", "Server.doResponse", fn.Decl.Pos(), "doResponse sends the answer on its response channel without a default arm (%d sends, %d in a select with default): the channel has one slot and is read only while a request is pending, so a second or unrequested answer of that kind blocks the server's only reader goroutine — nothing the UDF sends afterwards is read, the keepalive starves and Stop() waits for the reader for ever", sends, guarded)
+	}
+}
+
+// c07QueueHandoff (seed C07-13-r5): InfluxDBOutNode.stopOut flushes and then aborts its write buffer. The flush covers what
+// writeBuffer.run has taken from the queue; an entry still sitting in the queue channel is seen by nobody — writeAll only looks
+// at the buffer, abort makes run return. The queue is therefore a rendezvous: when enqueue returns, run has the entry.
+func c07QueueHandoff(c *core.Ctx, root *packages.Package) {
+	c.Rule("C07.queue", "A9 (ownership): the channel stored in writeBuffer.queue is made without capacity: enqueue returns only when run has taken the entry, so the flush of a graceful stop covers every point the node accepted — entries parked in a buffered queue are neither written by the final flush nor counted as write errors")
+	info := root.TypesInfo
+	n := 0
+	for _, f := range core.AllFuncs(root) {
+		ast.Inspect(f.Decl.Body, func(nd ast.Node) bool {
+			var val ast.Expr
+			switch x := nd.(type) {
+			case *ast.CompositeLit:
+				if !core.TypeIs(info.TypeOf(x), core.ModPath(""), "writeBuffer") {
+					return true
+				}
+				for _, el := range x.Elts {
+					if kv, ok := el.(*ast.KeyValueExpr); ok {
+						if id, ok := kv.Key.(*ast.Ident); ok && id.Name == "queue" {
+							val = kv.Value
+						}
+					}
+				}
+			case *ast.AssignStmt:
+				for i, l := range x.Lhs {
+					if an.FieldSel(info, l, "writeBuffer", "queue") && i < len(x.Rhs) {
+						val = x.Rhs[i]
+					}
+				}
+			}
+			if val == nil {
+				return true
+			}
+			n++
+			c.Analysed(f)
+			call, ok := ast.Unparen(val).(*ast.CallExpr)
+			unbuffered := false
+			if ok && core.IsBuiltin(info, call, "make") {
+				switch len(call.Args) {
+				case 1:
+					unbuffered = true
+				case 2:
+					if tv, ok := info.Types[call.Args[1]]; ok && tv.Value != nil && constant.Sign(tv.Value) == 0 {
+						unbuffered = true
+					}
+				}
+			}
+			c.Check(unbuffered, "C07.queue", f.Decl.Name.Name+"#queue", val.Pos(), "%s stores %s as the write buffer's queue: it must be unbuffered — with a buffer the node's consumer finishes while entries are still parked in the channel, the final flush writes only what run had taken, abort ends run, and the parked points of a cleanly stopped task are never written", f.Decl.Name.Name, types.ExprString(val))
+			return true
+		})
+	}
+	c.Floor("C07.queue", "stores into writeBuffer.queue", n, 1)
+}
+
+// c13RefEscape (seed C13-13-r5): a reference is written between double quotes with some characters escaped by a backslash, and
+// read back by a lexer and a constructor that each undo escapes. The three sets must be one set: a character the formatter
+// escapes but the readers leave alone comes back with its backslash — "host\name" is written "host\\name", read as a different
+// field, and doubles again on every pass.
+func c13RefEscape(c *core.Ctx) {
+	c.Rule("C13.refescape", "A11 (writer/reader agreement): the set of characters ReferenceNode.Format puts a backslash in front of equals the set lexReference skips after a backslash and the set newReference removes the backslash from — read from the comparisons in the three functions")
+	ap := c.P.Pkg("tick/ast")
+	if ap == nil {
+		c.Undecided("C13.refescape", "anchor:tick/ast", token.NoPos, "package not loaded")
+		return
+	}
+	info := ap.TypesInfo
+	charOf := func(e ast.Expr) (string, bool) {
+		tv, ok := info.Types[e]
+		if !ok || tv.Value == nil {
+			return "", false
+		}
+		if v, exact := constant.Int64Val(constant.ToInt(tv.Value)); exact && v > 0 && v < 0x110000 {
+			return string(rune(v)), true
+		}
+		return "", false
+	}
+	// characters X is compared with (==) in cond, through ||
+	var eqSet func(cond ast.Expr, isX func(ast.Expr) bool, out map[string]bool) bool
+	eqSet = func(cond ast.Expr, isX func(ast.Expr) bool, out map[string]bool) bool {
+		cond = ast.Unparen(cond)
+		be, ok := cond.(*ast.BinaryExpr)
+		if !ok {
+			return false
+		}
+		switch be.Op {
+		case token.LOR:
+			return eqSet(be.X, isX, out) && eqSet(be.Y, isX, out)
+		case token.EQL:
+			if isX(be.X) {
+				if ch, ok := charOf(be.Y); ok {
+					out[ch] = true
+					return true
+				}
+			}
+			if isX(be.Y) {
+				if ch, ok := charOf(be.X); ok {
+					out[ch] = true
+					return true
+				}
+			}
+		}
+		return false
+	}
+	show := func(m map[string]bool) string { return strings.Join(an.SortedKeys(m), " ") }
+	// writer
+	writer := map[string]bool{}
+	wOK := false
+	if fn := c.Need("C13.refescape", "tick/ast", "ReferenceNode", "Format"); fn != nil {
+		ast.Inspect(fn.Decl.Body, func(nd ast.Node) bool {
+			rs, ok := nd.(*ast.RangeStmt)
+			if !ok || rs.Value == nil {
+				return true
+			}
+			vid, ok := rs.Value.(*ast.Ident)
+			if !ok {
+				return true
+			}
+			vobj := info.Defs[vid]
+			ast.Inspect(rs.Body, func(m ast.Node) bool {
+				is, ok := m.(*ast.IfStmt)
+				if !ok {
+					return true
+				}
+				// the body writes a backslash
+				writes := false
+				ast.Inspect(is.Body, func(x ast.Node) bool {
+					if call, ok := x.(*ast.CallExpr); ok && len(call.Args) == 1 {
+						if ch, ok := charOf(call.Args[0]); ok && ch == "\\" {
+							writes = true
+						}
+					}
+					return true
+				})
+				if writes {
+					wOK = eqSet(is.Cond, func(e ast.Expr) bool {
+						id, ok := ast.Unparen(e).(*ast.Ident)
+						return ok && info.Uses[id] == vobj
+					}, writer)
+				}
+				return true
+			})
+			return true
+		})
+	}
+	// the lexer: case '\\': if l.peek() == C { l.next() }
+	lexer := map[string]bool{}
+	lOK := false
+	if fn := c.Need("C13.refescape", "tick/ast", "", "lexReference"); fn != nil {
+		ast.Inspect(fn.Decl.Body, func(nd ast.Node) bool {
+			cl, ok := nd.(*ast.CaseClause)
+			if !ok || len(cl.List) != 1 {
+				return true
+			}
+			if ch, ok := charOf(cl.List[0]); !ok || ch != "\\" {
+				return true
+			}
+			for _, st := range cl.Body {
+				if is, ok := st.(*ast.IfStmt); ok {
+					lOK = eqSet(is.Cond, func(e ast.Expr) bool {
+						call, ok := ast.Unparen(e).(*ast.CallExpr)
+						if !ok {
+							return false
+						}
+						sel, ok := call.Fun.(*ast.SelectorExpr)
+						return ok && sel.Sel.Name == "peek"
+					}, lexer)
+				}
+			}
+			return true
+		})
+	}
+	// the constructor: X[i] == '\\' && X[i+1] == C
+	reader := map[string]bool{}
+	rOK := false
+	if fn := c.Need("C13.refescape", "tick/ast", "", "newReference"); fn != nil {
+		ast.Inspect(fn.Decl.Body, func(nd ast.Node) bool {
+			is, ok := nd.(*ast.IfStmt)
+			if !ok {
+				return true
+			}
+			be, ok := ast.Unparen(is.Cond).(*ast.BinaryExpr)
+			if !ok || be.Op != token.LAND {
+				return true
+			}
+			l, ok := ast.Unparen(be.X).(*ast.BinaryExpr)
+			if !ok || l.Op != token.EQL {
+				return true
+			}
+			if ch, ok := charOf(l.Y); !ok || ch != "\\" {
+				return true
+			}
+			rOK = eqSet(be.Y, func(e ast.Expr) bool {
+				_, ok := ast.Unparen(e).(*ast.IndexExpr)
+				return ok
+			}, reader)
+			return true
+		})
+	}
+	if !wOK || !lOK || !rOK {
+		c.Undecided("C13.refescape", "ReferenceNode#escape-sets", token.NoPos, "the escape sets could not be read (formatter %v, lexer %v, constructor %v)", wOK, lOK, rOK)
+		return
+	}
+	c.Check(show(writer) == show(lexer) && show(writer) == show(reader), "C13.refescape", "ReferenceNode#escape-sets", token.NoPos, "ReferenceNode.Format escapes [%s], lexReference skips [%s] after a backslash, newReference unescapes [%s]: a character escaped by one side only comes back with (or without) its backslash — the formatted script names another field, and formatting never becomes stable", show(writer), show(lexer), show(reader))
 }
